@@ -97,6 +97,17 @@ fn alphabet(multi_any: bool, rich: bool) -> Vec<Tok> {
         v.extend(SGR_RICH.iter().map(|p| sgr(p)));
     }
     v.push(non_sgr());
+    // C0 controls that are not text (a conforming extractor drops them; VT and BS are not XML 1.0 characters)
+    v.push(Tok { label: "VT".into(), bytes: vec![0x0b], text: false });
+    v.push(Tok { label: "BS".into(), bytes: vec![0x08], text: false });
+    // an over-long non-SGR sequence (33 parameters): whatever the parser notes about it must not reach later sequences
+    v.push(Tok { label: "CSI(1;)*33H".into(), bytes: [b"\x1b[".to_vec(), b"1;".repeat(33), b"H".to_vec()].concat(), text: false });
+    if rich {
+        v.push(Tok { label: "ESC-SP-!-\"-x".into(), bytes: b"\x1b !\"x".to_vec(), text: false });
+        v.push(Tok { label: "CSI(1;)*33-CAN".into(), bytes: [b"\x1b[".to_vec(), b"1;".repeat(33), vec![0x18]].concat(), text: false });
+        v.push(Tok { label: "NUL".into(), bytes: vec![0], text: false });
+        v.push(Tok { label: "BEL".into(), bytes: vec![7], text: false });
+    }
     if rich {
         // not SGR: private marker / intermediate before the final byte, OSC title
         v.push(Tok { label: "CSI>4;2m".into(), bytes: b"\x1b[>4;2m".to_vec(), text: false });
